@@ -1,4 +1,4 @@
-import FpgoVerif.Proofs.C04Sort
+import FpgoVerif.Proofs.C04SSet
 import FpgoVerif.Gen.StreamEffects
 /-! Property theorems for C04 — Stream / Set / StreamSet are persistent.
 
@@ -260,6 +260,45 @@ theorem C04_sortBy_spec {less : Int → Int → Bool} (h : C19.StrictWeak less) 
   ⟨C19.sortBy_perm less l, C19.sortBy_pairwise h l, C19.sortBy_filter_equiv h l⟩
 
 theorem C04_comparators_strictWeak (k : Nat) : C19.StrictWeak (Spec.lessFn k) := lessFn_strictWeak k
+
+/-! ### StreamSet operations: from maps of stream pointers to maps of element sequences -/
+
+/-- the printed/compared contents of a set-like handle are its entries — every stream pointer replaced by the
+    sequence it denotes — sorted by key -/
+theorem C04_content_is_sorted_entries (w : World) (p : Nat) :
+    setContent w p = Spec.sortByKey (entriesOf w (w.setMap p)) := rfl
+
+/-- StreamSet `Clone`, `Intersection`, `MinusStreams`, `Union`, `StreamSetFromMap`: the entries of the RESULT (keys
+    with the element sequences of their streams) are the prescribed function of the entries of the operands:
+    * `Clone`: the same entries (through freshly cloned streams);
+    * `Intersection`: the receiver's entries whose key the argument has; where the argument's stream is non-empty
+      the stream becomes `Spec.inter` of the two (a nil receiver stream counts as empty);
+    * `MinusStreams`: all the receiver's entries; where the argument's stream under the same key is non-empty the
+      stream becomes `Spec.minus` of the two;
+    * `Union`: `Merge` (the argument wins) except that a key of BOTH sides whose argument stream is non-empty holds
+      the receiver's stream extended by the argument's (`unionC`);
+    and an empty argument gives ∅ / ∅ / the receiver. -/
+theorem C04_streamset_results {w : World} (hw : Wf w) {p : Nat} (hp : p < w.sets.length) (q : Nat) :
+    let e₁ := entriesOf w (w.setMap p)
+    let e₂ := entriesOf w (w.setMap q)
+    (entriesOf (w.ssClone p).1 ((w.ssClone p).1.setMap (w.ssClone p).2) = e₁) ∧
+    (entriesOf (w.ssInter p (some q)).1 ((w.ssInter p (some q)).1.setMap (w.ssInter p (some q)).2)
+      = if e₂.isEmpty then [] else (Spec.interByKey e₁ e₂).map (fun kv => (kv.1, combineC Spec.inter e₂ kv.1 kv.2))) ∧
+    (entriesOf (w.ssMinusStreams p (some q)).1
+        ((w.ssMinusStreams p (some q)).1.setMap (w.ssMinusStreams p (some q)).2)
+      = if e₂.isEmpty then [] else e₁.map (fun kv => (kv.1, combineC Spec.minus e₂ kv.1 kv.2))) ∧
+    (entriesOf (w.ssUnion p (some q)).1 ((w.ssUnion p (some q)).1.setMap (w.ssUnion p (some q)).2)
+      = if e₂.isEmpty then e₁ else unionC e₁ e₂) ∧
+    (∀ m, mapOk w m → entriesOf (w.ssFromMap m).1 ((w.ssFromMap m).1.setMap (w.ssFromMap m).2) = entriesOf w m) :=
+  ⟨ssClone_entries hw p, ssInter_entries hw p q, ssMinusStreams_entries hw p q, ssUnion_entries hw hp q,
+   fun _ hm => setMap_newSet_entries hw hm⟩
+
+/-- nil arguments: `Union(nil)` is the receiver itself, `Intersection(nil)` and `MinusStreams(nil)` are empty -/
+theorem C04_streamset_nil_arg (w : World) (p : Nat) :
+    w.ssUnion p none = (w, p) ∧
+    (w.ssInter p none).1.setMap (w.ssInter p none).2 = [] ∧
+    (w.ssMinusStreams p none).1.setMap (w.ssMinusStreams p none).2 = [] :=
+  ⟨rfl, setMap_newSet _ _, setMap_newSet _ _⟩
 
 /-! ### results: the elements the sequence definition prescribes -/
 
